@@ -584,7 +584,7 @@ _public_ int m_mod_set_tokenbucket(m_mod_t *mod, uint32_t rate, uint64_t burst) 
          * (deregistering consumes a token too), else it would keep refilling the new bucket on top of the new timer.
          */
         mod->tb.tokens = UINT64_MAX;
-        deregister_mod_src(mod, M_SRC_TYPE_TMR, &mod->tb.timer, M_SRC_INTERNAL);
+        deregister_mod_src(mod, M_SRC_TYPE_TMR, &mod->tb.timer, M_SRC_INTERNAL, &mod->tb);
     }
     
     // Rate 0 -> disable tb
